@@ -9,6 +9,8 @@ def key_of(ln):
     ev = ln["ev"]
     if ev == "ss":
         return "secretsharing:%s:t=%d,n=%d,picked=%d:%s" % (ln["group"], ln["t"], ln["n"], len(ln["pick"]), ln["recover"])
+    if ev == "ss-huge":
+        return "secretsharing:huge-threshold:t=%s:%s" % (ln["ids"], "recover-" + ln["recover"] if ln["recover"] != "error" else "verify")
     if ev == "poly":
         return "polynomial:Evaluate:%s" % ln["group"]
     if ev == "rsa":
